@@ -1,12 +1,14 @@
 #!/bin/bash
-# usage: matrix_one.sh <seeded|equiv> <id>   -- one patch, own scratch worktree; prints one line
+# usage: matrix_one.sh <seeded|equiv> <id>   -- one patch, own scratch copy of /repo's working tree (no .git); prints one line
 export GOFLAGS=-mod=mod GOPROXY=off GOSUMDB=off GOTOOLCHAIN=local; unset GOWORK
 kind=$1; id=$2; d=/verif/$kind/$id
 wt=/tmp/mx_${kind}_${id}_$$
-git -C /repo worktree add -q --detach $wt HEAD 2>/dev/null || { echo "$id: WORKTREE-FAILED"; exit 0; }
-trap "git -C /repo worktree remove --force $wt 2>/dev/null; rm -rf $wt" EXIT
-if ! git -C $wt apply $d/patch.diff 2>/dev/null && ! git -C $wt apply --3way $d/patch.diff 2>/dev/null; then echo "$id: PATCH-DOES-NOT-APPLY"; exit 0; fi
-out=$(PLUSH_REPO=$wt /verif/bin/plushcheck -prop all -no-evidence 2>&1)
+mkdir -p $wt && rsync -a --exclude .git /repo/ $wt/ || { echo "$id: COPY-FAILED"; exit 0; }
+trap "rm -rf $wt" EXIT
+if ! (cd $wt && git apply $d/patch.diff 2>/dev/null); then echo "$id: PATCH-DOES-NOT-APPLY"; exit 0; fi
+out=$(PLUSH_REPO=$wt /verif/bin/plushcheck -prop all -no-evidence 2>&1); rc=$?
+n=$(echo "$out" | grep -c "^C[0-9]* quick:")
+if [ "$n" != "20" ]; then echo "$id: CHECK-INCOMPLETE rc=$rc summaries=$n"; echo "$out" | tail -5 | cut -c1-300; exit 0; fi
 fired=$(echo "$out" | grep -o "^VIOLATION property=C[0-9]*" | sort -u | sed 's/VIOLATION property=//' | tr '\n' ' ')
 if [ "$kind" = equiv ]; then
   if [ -n "$fired" ]; then echo "$id: FALSE-ALARM [$fired]"; else echo "$id: quiet"; fi
